@@ -1,6 +1,10 @@
 package agwtnc
 
-import "time"
+import (
+	"time"
+
+	"verif/sim/pipe"
+)
 
 // The functions in this file act *now*. The caller (the engine's TNC script)
 // is responsible for being on its own simulated instant (sim.At callback).
@@ -75,6 +79,15 @@ func (s *Session) Disconnect(k ConnKey) bool {
 	s.sim.Logf("tnc> %v (remote disconnect)", fr)
 	s.write(fr.Encode())
 	return true
+}
+
+// InFlight is the number of bytes the TNC has written to the TCP link that the
+// link has not delivered to the host yet.
+func (s *Session) InFlight() int {
+	if t, ok := pipe.WithCaps(s.c, []string{"txbuffer"}).(interface{ TxBufferLen() int }); ok {
+		return t.TxBufferLen()
+	}
+	return 0
 }
 
 // CloseLink closes the TCP connection from the TNC side.
